@@ -59,10 +59,10 @@ fuzz_campaign() {
         rsync -a --delete --exclude target --exclude work "$ROOT/fuzz/" "$FUZZ/"
         sed -i 's#path = "../harness"#path = "../alt-harness"#' "$FUZZ/Cargo.toml"
     fi
-    local runs="${VERIF_FUZZ_RUNS:-1500000}"
+    local runs="${VERIF_FUZZ_RUNS:-400000}"
     local seed="${VERIF_SEED:-20260925}"
     seed=$(( (seed % 2147483646) + 1 ))
-    if ! (cd "$FUZZ" && cargo +nightly fuzz build --fuzz-dir "$FUZZ" >"$FUZZ/build.log" 2>&1); then
+    if ! (cd "$FUZZ" && cargo +nightly fuzz build -s none --fuzz-dir "$FUZZ" >"$FUZZ/build.log" 2>&1); then
         echo "HARNESS-ERROR: fuzz build failed" >&2
         tail -30 "$FUZZ/build.log" >&2
         return 2
@@ -122,7 +122,7 @@ for t in targets:
     cov = re.findall(r'cov: (\d+) ft: (\d+) corp: (\d+)', log)
     runs = stat('number_of_executed_units') or 0
     total += runs
-    fz.append({"target": t, "engine": "libFuzzer (cargo-fuzz, ASan, debug assertions, overflow checks)",
+    fz.append({"target": t, "engine": "libFuzzer (cargo-fuzz, no sanitizer: the library is safe Rust; debug assertions and overflow checks on)",
                "executed_units": runs, "average_exec_per_sec": stat('average_exec_per_sec'),
                "edges_covered": int(cov[-1][0]) if cov else None, "features": int(cov[-1][1]) if cov else None,
                "corpus_units": int(cov[-1][2]) if cov else None,
